@@ -46,6 +46,14 @@ func runSolver(sp solverSpec, query string, timeout time.Duration) solveResult {
 	err := cmd.Run()
 	dt := time.Since(t0).Seconds()
 	text := out.String()
+	// drop solver warnings in front of the answer
+	for strings.HasPrefix(text, "WARNING") || strings.HasPrefix(text, "(warning") {
+		i := strings.Index(text, "\n")
+		if i < 0 {
+			break
+		}
+		text = text[i+1:]
+	}
 	first := strings.TrimSpace(strings.SplitN(text, "\n", 2)[0])
 	res := solveResult{solver: sp.name, seconds: dt, output: text}
 	switch {
